@@ -1454,7 +1454,13 @@ func (c *Conn) waitResponse(d *connDeadline, id int32) (deadline time.Time, size
 			// should be impossible to read a correlation id different from the
 			// one it expects. This is a sign that the data we are reading on
 			// the wire is corrupted and the connection needs to be closed.
+			// Closing it here (not only reporting the error) matters: the stray
+			// response is still in the read buffer, and a later request whose
+			// correlation id happens to equal the stray one would take it for
+			// its own response.
 			err = io.ErrNoProgress
+			d.unsetConnReadDeadline()
+			c.conn.Close()
 			if verifOn {
 				verifEvent("C.Peek", c, id, rid, "lone")
 			}
